@@ -37,13 +37,17 @@ theorem run_ne_panic (fx : PFix) (h9 : fx.f9 = true) : ∀ (cs : List Char) (s :
     · simp
     · rename_i h; exact absurd h (step_ne_panic fx h9 s c)
 
-/-- **C10 (totality), repaired parser.** Every string yields `Ok` or `Err`, never a panic. -/
-theorem C10_total (fx : PFix) (h9 : fx.f9 = true) (cs : List Char) : parse fx cs ≠ .panic := by
+/-- Every string yields `Ok` or `Err`, never a panic, for any parser with the width repair. -/
+theorem parse_ne_panic (fx : PFix) (h9 : fx.f9 = true) (cs : List Char) : parse fx cs ≠ .panic := by
   unfold parse
   split
   · split <;> simp
   · simp
   · rename_i h; exact absurd h (run_ne_panic fx h9 cs {})
+
+/-- **C10 (totality).** The parser as it is in the repository now: every string yields `Ok` or
+`Err`, never a panic. -/
+theorem C10_total (cs : List Char) : parse PFix.current cs ≠ .panic := parse_ne_panic _ rfl cs
 
 /-- **The pinned parser does panic** (candidate F9): a width that does not fit 16 bits. -/
 theorem C10_total_fails_unrepaired : parse {} "{bar:70000}".toList = .panic := by decide +kernel
